@@ -31,7 +31,8 @@ def run_chunk(args):
     t0 = time.time()
     batch = relational.Batch("%s-%d" % (prop, idx))
     prelude = build.prelude if hasattr(build, "prelude") else None
-    exs, counts = common.explore(progs, wd, name="base%d" % idx, prelude=prelude, flavour=flavour, **ex_kw)
+    turns = getattr(build, "turns", False)
+    exs, counts = common.explore(progs, wd, name="base%d" % idx, prelude=prelude, flavour=flavour, turns=turns, **ex_kw)
     cases = []
     cfg = build.cfg() if hasattr(build, "cfg") else {}
     dropped = 0
@@ -59,6 +60,8 @@ def run_chunk(args):
     for n, cs in enumerate(cases):
         rs = bc.get(json.dumps(n), [])
         caseno = batch.start_case(cs.key, cs.info, **case_kw)
+        if turns:
+            rs = relational.collapse_turns(rs)
         if any(r.get("op") == "abort" for r in rs):
             # the process died inside this case: an event no action matches
             rs = [r for r in rs if r.get("n", 0) > 0]
@@ -90,9 +93,14 @@ def cases_by_key(cases, key):
     return None
 
 
+ACC = {}
+
+
 def run_relational(prop, progs, build, tier, seed, level, rule, ex_kw, case_kw=None, chunk=12, jobs=6,
                    flavour="debug", assumptions=None, extra_cov=None, design_stats=None):
+    """several calls for the same property within one process accumulate into one evidence file"""
     t0 = time.time()
+    acc = ACC.setdefault(prop, dict(t0=t0, tot=None, samples=[], rules=[], nviol=0, tool=0, known=set()))
     wd = lib.workdir(prop)
     lib.build(flavour)
     args = [(prop, i, ch, build, wd, ex_kw, case_kw or {}, flavour) for i, ch in enumerate(chunked(progs, chunk))]
@@ -107,11 +115,24 @@ def run_relational(prop, progs, build, tier, seed, level, rule, ex_kw, case_kw=N
                 tot[k] += stats.get(k, 0)
             samples += stats["samples"]
     nviol, tool, seen_known = report_mismatches(prop, allm)
+    part = dict(cases=tot["cases"], tool=tool, nviol=nviol)
+    if acc["tot"] is None:
+        acc["tot"] = dict(tot)
+    else:
+        for k in tot:
+            acc["tot"][k] += tot[k]
+    acc["samples"] += samples[:2]
+    acc["rules"].append(rule)
+    acc["nviol"] += nviol
+    acc["tool"] += tool
+    acc["known"] |= set(seen_known)
+    tot, samples, rule = acc["tot"], acc["samples"], " || ".join(acc["rules"])
+    tool_total, seen_known = acc["tool"], sorted(acc["known"])
     cov = dict(states=max(1, tot["distinct"]), transitions=max(1, tot["states"]),
-               traces_validated_against_impl=tot["cases"], samples=samples[:3],
+               traces_validated_against_impl=tot["cases"], samples=samples[:4],
                evaluations=tot["cases"], distinct_nontrivial=tot["nontrivial"], rule=rule,
                programs=tot["programs"], programs_dropped=tot["dropped"] + tot["compile_errors"] + tot["aborted"],
-               reference_positions=tot["nodes"], events=tot["events"], tool_level_mismatches=tool,
+               reference_positions=tot["nodes"], events=tot["events"], tool_level_mismatches=tool_total,
                known_findings_seen=seen_known, exhaustive=False)
     if design_stats:
         cov["states"] += design_stats.get("distinct", 0)
@@ -119,11 +140,11 @@ def run_relational(prop, progs, build, tier, seed, level, rule, ex_kw, case_kw=N
         cov["design_level"] = design_stats
     if extra_cov:
         cov.update(extra_cov)
-    lib.write_evidence(prop, tier, seed, level, cov, time.time() - t0, nviol, assumptions)
-    lib.log("[%s] cases=%d events=%d nodes=%d nontrivial=%d violations=%d tool=%d wall=%.1fs" % (
-        prop, tot["cases"], tot["events"], tot["nodes"], tot["nontrivial"], nviol, tool, time.time() - t0))
-    if tot["cases"] == 0 or tool > max(3, tot["cases"] // 5):
-        raise lib.ToolError("%s: too many tool-level mismatches (%d of %d cases)" % (prop, tool, tot["cases"]))
+    lib.write_evidence(prop, tier, seed, level, cov, time.time() - acc["t0"], acc["nviol"], assumptions)
+    lib.log("[%s] cases=%d (total %d) events=%d nodes=%d nontrivial=%d violations=%d tool=%d wall=%.1fs" % (
+        prop, part["cases"], tot["cases"], tot["events"], tot["nodes"], tot["nontrivial"], nviol, tool, time.time() - t0))
+    if part["cases"] == 0 or tool > max(3, part["cases"] // 5):
+        raise lib.ToolError("%s: too many tool-level mismatches (%d of %d cases)" % (prop, tool, part["cases"]))
     return nviol
 
 
